@@ -54,6 +54,8 @@ pub enum Q {
     Impl(String),
     /// `choices_for`
     Choices(String),
+    /// `associations(parent, association)`
+    Assoc(String, String),
 }
 
 impl Q {
@@ -93,7 +95,7 @@ impl Q {
     }
     /// the ORDER of cache operations does not depend on hash-set iteration order
     fn deterministic_order(&self) -> bool {
-        matches!(self, Q::Sup(_) | Q::ASup(_) | Q::Inh(_) | Q::Fits(..) | Q::Tags(_) | Q::FitsRoot(..) | Q::Impl(_) | Q::Rel(..))
+        matches!(self, Q::Sup(_) | Q::ASup(_) | Q::Inh(_) | Q::Fits(..) | Q::Tags(_) | Q::Assoc(..) | Q::FitsRoot(..) | Q::Impl(_) | Q::Rel(..))
     }
     fn write(&self, out: &mut Vec<String>) {
         let rec = |r: &RecSpec, out: &mut Vec<String>| {
@@ -127,6 +129,7 @@ impl Q {
             Q::FitsRoot(w, k) => out.extend(["froot".into(), w.to_string(), vx::h(k)]),
             Q::Impl(k) => out.extend(["impl".into(), vx::h(k)]),
             Q::Choices(k) => out.extend(["choices".into(), vx::h(k)]),
+            Q::Assoc(p, a) => out.extend(["assoc".into(), vx::h(p), vx::h(a)]),
         }
     }
     fn read(rd: &mut vx::Rd) -> Option<Q> {
@@ -162,6 +165,7 @@ impl Q {
             }
             "impl" => Q::Impl(rd.hs()?),
             "choices" => Q::Choices(rd.hs()?),
+            "assoc" => Q::Assoc(rd.hs()?, rd.hs()?),
             _ => return None,
         })
     }
@@ -240,6 +244,7 @@ fn ask(ns: Ns, q: &Q) -> (String, String) {
         }
         Q::Impl(k) => (n(c13::names(ns.implementation(&Symbol::from(k.as_str())))), String::new()),
         Q::Choices(k) => (n(c13::names(ns.choices_for(&Symbol::from(k.as_str())).iter())), String::new()),
+        Q::Assoc(p, a) => (n(c13::names(ns.associations(&Symbol::from(p.as_str()), &Symbol::from(a.as_str())))), String::new()),
     }
 }
 
@@ -1052,6 +1057,12 @@ fn gen_queries(rng: &mut Rng, o: &Oracle, universe: &[String], n: u64, kinds: &[
                 Q::FitsRoot(w, k)
             }
             9 => Q::Impl(name(rng)),
+            11 => {
+                // several associations of the SAME parent, computed ones among them
+                let a = rng.pick(&["tags", "tagOn", "is", "quantities", "quantityOf", "cools", "heats", "neverMentioned"]).to_string();
+                let p = if rng.chance(1, 2) { rng.pick(&["site", "air", "ahu", "equip", "marker"]).to_string() } else { name(rng) };
+                Q::Assoc(p, a)
+            }
             _ => Q::Choices(name(rng)),
         };
         qs.push(q);
@@ -1061,7 +1072,7 @@ fn gen_queries(rng: &mut Rng, o: &Oracle, universe: &[String], n: u64, kinds: &[
 
 const MODELLED_DET: &[u64] = &[0, 1, 1, 2, 2, 2, 3, 3, 4];
 const MODELLED: &[u64] = &[0, 1, 2, 2, 3, 3, 4, 5, 5];
-const ALL_KINDS: &[u64] = &[0, 1, 2, 2, 3, 3, 4, 5, 6, 6, 7, 8, 8, 9, 10];
+const ALL_KINDS: &[u64] = &[0, 1, 2, 2, 3, 3, 4, 5, 6, 6, 7, 8, 8, 9, 10, 11, 11, 11];
 const ORDERED: &[u64] = &[0, 1, 2, 2, 3];
 const ORDERED_X: &[u64] = &[0, 1, 2, 3, 6, 7, 7, 8, 9];
 
